@@ -28,3 +28,30 @@ func TestSmoke(t *testing.T) {
 		t.Logf("path: %s", s)
 	}
 }
+
+func TestParseProbe(t *testing.T) {
+	if os.Getenv("GOSE_PROBE") == "" {
+		t.Skip()
+	}
+	files := map[string]string{}
+	for virt, real := range map[string]string{"src/parser/zz_verif_c03.go": "parser/zz_verif_c03.go", "src/parser/zz_verif_c19.go": "parser/zz_verif_c19.go"} {
+		b, _ := os.ReadFile("/verif/harness/go/" + real)
+		files[virt] = string(b)
+	}
+	p, err := Load("/repo", files, "./src/parser/...", "./src/scanner")
+	if err != nil {
+		t.Fatal(err)
+	}
+	st := p.Explore(ModPath+"/src/parser", os.Getenv("GOSE_PROBE"), Options{Workers: 16, KeepPaths: 3, Deadline: 5 * time.Minute})
+	t.Logf("paths=%d branches=%d asserts=%d proved=%d aborted=%d steps=%d wall=%v depth=%d trunc=%v", st.Paths, st.Branches, st.Asserts, st.Proved, st.Aborted, st.Steps, st.Wall, st.MaxDepth, st.Truncated)
+	for _, v := range st.Violations {
+		t.Logf("VIOL %s %s model=%s", v.Kind, v.Msg, ModelString(v.Model))
+	}
+	seen := map[string]int{}
+	for _, s := range st.Incon {
+		seen[s]++
+	}
+	for s, n := range seen {
+		t.Logf("INCON x%d %s", n, s)
+	}
+}
